@@ -15,12 +15,22 @@ fn space(name: &str, count: u64, per_block: u64, desc: serde_json::Value, gen: B
 /// Spines of exactly `k` contexts (from `ctxs`) around every leaf; `with_prelude` prepends the
 /// declarations that make the program semantically meaningful.
 pub fn spines(k: usize, reduced: bool, with_prelude: bool, sema_only: bool, oracle: Oracle) -> Box<dyn Space> {
+    spines_over("spines", leaves, k, reduced, with_prelude, sema_only, oracle)
+}
+
+/// The same over the grid leaves (statement form x operand form, qualifier x type, assignment
+/// operator x target form).
+pub fn grid(k: usize, with_prelude: bool, sema_only: bool, oracle: Oracle) -> Box<dyn Space> {
+    spines_over("grid", grid_leaves, k, false, with_prelude, sema_only, oracle)
+}
+
+fn spines_over(family: &'static str, leaves: fn() -> Vec<Leaf>, k: usize, reduced: bool, with_prelude: bool, sema_only: bool, oracle: Oracle) -> Box<dyn Space> {
     let ctxs: Vec<Context> = if reduced { CONTEXTS_REDUCED.to_vec() } else { CONTEXTS.to_vec() };
     let nl = leaves().len() as u64;
     let nc = ctxs.len() as u64;
     let count = nc.pow(k as u32) * nl;
-    let name = format!("G-PROG/spines/k={}{}{}", k, if reduced { "/reduced" } else { "" }, if with_prelude { "/prelude" } else { "" });
-    let desc = json!({"space": "G-PROG spines", "k": k, "contexts": ctxs.iter().map(|c| format!("{:?}", c)).collect::<Vec<_>>(),
+    let name = format!("G-PROG/{}/k={}{}{}", family, k, if reduced { "/reduced" } else { "" }, if with_prelude { "/prelude" } else { "" });
+    let desc = json!({"space": format!("G-PROG {}", family), "k": k, "contexts": ctxs.iter().map(|c| format!("{:?}", c)).collect::<Vec<_>>(),
                       "leaves": leaves().iter().map(|l| l.name).collect::<Vec<_>>(), "prelude": with_prelude});
     let gen = move |i: u64| -> Option<ProgCase> {
         let ls = leaves();
@@ -93,6 +103,32 @@ pub fn sequences(n: usize, with_prelude: bool, sema_only: bool, oracle: Oracle) 
     space(&name, count, 32, desc, Box::new(gen), oracle)
 }
 
+/// Every leaf with annotation lines before it: `@a L`, and `@a @b L @c reset r;` (two annotations
+/// on one statement, an annotation on the statement after it).
+pub fn annotated(oracle: Oracle) -> Box<dyn Space> {
+    let count = leaves().len() as u64 * 2;
+    let desc = json!({"space": "G-PROG annotated leaves", "forms": 2, "prelude": true});
+    let gen = move |i: u64| -> Option<ProgCase> {
+        let ls = leaves();
+        let leaf = &ls[(i / 2) as usize];
+        if !leaf.sema {
+            return None;
+        }
+        let mut stmts = prelude();
+        stmts.push(Stmt::Annotation("@verif first 1".into()));
+        if i % 2 == 1 {
+            stmts.push(Stmt::Annotation("@second".into()));
+        }
+        stmts.push(leaf.stmt.clone());
+        if i % 2 == 1 {
+            stmts.push(Stmt::Annotation("@third x y".into()));
+            stmts.push(Stmt::Reset(crate::model::prog::Operand::Id("r".into())));
+        }
+        Some(ProgCase { stmts, tag: format!("annotated[{}]/leaf={}", i % 2, leaf.name) })
+    };
+    space("G-PROG/annotated/prelude", count, 8, desc, Box::new(gen), oracle)
+}
+
 fn rename_decl(st: &mut Stmt, pos: usize) {
     let sfx = format!("_{}", pos);
     match st {
@@ -129,6 +165,8 @@ pub fn syntax_spaces(tier: Tier, oracle: Oracle) -> Vec<Box<dyn Space>> {
         spines(0, false, false, false, oracle),
         spines(1, false, false, false, oracle),
         spines(2, false, false, false, oracle),
+        grid(0, false, false, oracle),
+        grid(1, false, false, oracle),
         sequences(2, false, false, oracle),
         expressions("two_op", N_POSITIONS, oracle),
         expressions("unary_mix", N_POSITIONS, oracle),
@@ -136,6 +174,7 @@ pub fn syntax_spaces(tier: Tier, oracle: Oracle) -> Vec<Box<dyn Space>> {
     ];
     if tier.is_thorough() {
         v.push(spines(3, false, false, false, oracle));
+        v.push(grid(2, false, false, oracle));
         v.push(spines(4, true, false, false, oracle));
         v.push(spines(5, true, false, false, oracle));
         v.push(sequences(3, false, false, oracle));
